@@ -147,6 +147,8 @@ func (m *CPU) Run(app risc.Application) (int, error) {
 				for !wu.isEmpty() || !m.writeBus.IsEmpty() {
 					cycle++
 					wu.cycle(m.ctx, from)
+					// What the queue could not take yet
+					m.writeBus.Connect(cycle + 1)
 				}
 			}
 
